@@ -1,22 +1,10 @@
 (* C40 proofs: totality of build outside the known class, the built transaction reflects
    the staged content, redeemers point at their targets, id = H(body bytes). *)
-From PV Require Import Lib.Base C40.Model C40.SortFacts.
+From PV Require Import Lib.Base C40.Model C40.Spec C40.SortFacts.
 From Coq Require Import Sorting.Sorted.
 Open Scope Z_scope.
 
 (* ---------- the zero-dropping, sorting conversion of asset maps ---------- *)
-Definition entry_in (m : amap) (p : hash) (n : bytes) (q : Z) : Prop :=
-  exists l, In (p, l) m /\ In (n, q) l.
-
-Definition names_sorted (l : inner) : Prop := Sorted (fun a b => bytes_leb (fst a) (fst b) = true) l.
-Definition policies_sorted (m : amap) : Prop := Sorted (fun a b => (fst a <=? fst b) = true) m.
-
-(* n is m without zero quantities and without emptied policies, in BTreeMap order *)
-Definition amap_reflects (m n : amap) : Prop :=
-  (forall p nm q, entry_in n p nm q <-> entry_in m p nm q /\ q <> 0) /\
-  policies_sorted n /\
-  (forall p l, In (p, l) n -> l <> [] /\ names_sorted l).
-
 Lemma norm_inner_In l n q : In (n, q) (norm_inner l) <-> In (n, q) l /\ q <> 0.
 Proof.
   unfold norm_inner. rewrite isort_In, filter_In. cbn. split; intros [H1 H2]; split; auto; lia.
@@ -56,12 +44,6 @@ Lemma conv_amap_fixed m : conv_amap false m = Ok (norm_amap m).
 Proof. reflexivity. Qed.
 
 (* ---------- outputs ---------- *)
-Definition out_reflects (o : output) (a : aout) : Prop :=
-  let '(ad, lov, assets, dat, scr) := a in
-  ad = o_addr o /\ lov = o_lovelace o /\ amap_reflects (o_assets o) assets /\
-  dat = option_map (fun d => (d_inline d, d_bytes d)) (o_datum o) /\
-  scr = option_map (fun s => (s_kind s, s_bytes s)) (o_script o).
-
 Lemma build_output_reflects o a : build_output false o = Ok a -> out_reflects o a.
 Proof.
   unfold build_output. rewrite conv_amap_fixed. intros H.
@@ -95,16 +77,6 @@ Proof.
 Qed.
 
 (* ---------- redeemers ---------- *)
-(* the built redeemer carries the staged data and budget, and its index addresses the
-   staged target in the input list / policy list of the built transaction *)
-Definition rdmr_points (ins : list input) (pols : list hash) (pr : purpose * rdmr) (a : ardmr) : Prop :=
-  let '(tag, ix, data, mem, steps) := a in
-  data = r_data (snd pr) /\ r_ex (snd pr) = Some (mem, steps) /\ 0 <= ix /\
-  match fst pr with
-  | PSpend i => tag = 0 /\ nth_error ins (Z.to_nat ix) = Some i
-  | PMint p => tag = 1 /\ nth_error pols (Z.to_nat ix) = Some p
-  end.
-
 Lemma build_rdmr_points ins pols pr a : build_rdmr ins pols pr = Ok a -> rdmr_points ins pols pr a.
 Proof.
   destruct pr as [pu r]. unfold build_rdmr.
@@ -128,8 +100,6 @@ Proof.
     destruct (build_rdmrs ins pols r) as [ar| |] eqn:Er; try discriminate.
     inversion H; subst. constructor; [apply build_rdmr_points; exact Ex|apply IH; reflexivity].
 Qed.
-
-Definition has_exunits (st : staging) : Prop := forall pr, In pr (s_rdmrs st) -> r_ex (snd pr) <> None.
 
 Lemma build_rdmrs_no_panic ins pols l :
   (forall pr, In pr l -> r_ex (snd pr) <> None) -> is_panic (build_rdmrs ins pols l) = false.
@@ -251,3 +221,24 @@ Proof. eexists. split; [vm_compute; reflexivity|]. split; reflexivity. Qed.
 Lemma todo_exunits_panics :
   pipeline false [OInput (1, 0); OSpendRdmr (1, 0) (rd None)] = Panic P_TODO.
 Proof. vm_compute. reflexivity. Qed.
+
+(* ---------- the headline facts ---------- *)
+Lemma build_reflects st t : build false st = Ok t -> reflects st t.
+Proof.
+  intros H. apply build_ok in H as [outs [mint [net [cr [rdmrs [Hh [Hr Ht]]]]]]].
+  apply build_head_ok in Hh as [Ho [Hm [Hn [Hc _]]]]. subst t mint net. unfold reflects; cbn.
+  destruct (sorted_inputs_spec st) as [Hs Hi].
+  split; [exact Hs|]. split; [exact Hi|]. split; [exact Ho|]. split; [reflexivity|]. split; [reflexivity|].
+  split; [reflexivity|]. split; [apply norm_amap_reflects|]. split; [reflexivity|]. split; [reflexivity|].
+  split; [reflexivity|]. split; [reflexivity|]. split; [exact Hc|].
+  split; [intros b; apply scripts_of_kind_In|]. split; [intros b; apply scripts_of_kind_In|].
+  split; [intros b; apply scripts_of_kind_In|]. split; [intros b; apply scripts_of_kind_In|].
+  repeat split; reflexivity.
+Qed.
+
+Lemma build_points st t : build false st = Ok t ->
+  Forall2 (rdmr_points (t_inputs t) (map fst (t_mint t))) (s_rdmrs st) (t_rdmrs t).
+Proof.
+  intros H. apply build_ok in H as [outs [mint [net [cr [rdmrs [Hh [Hr Ht]]]]]]]. subst t. cbn.
+  apply build_rdmrs_points. exact Hr.
+Qed.
